@@ -43,6 +43,10 @@ func init() {
 				app(2)
 			}
 			app(synth.InitSend(make(chan int, 1)))
+		case 8:
+			app(synth.Timeout(), synth.Cancel())
+		case 9:
+			app(synth.CancelSelect(), synth.AfterFunc())
 		case 7:
 			b := synth.NewDeep()
 			b.Set("k", c.I2)
